@@ -80,7 +80,9 @@ def parse_cases(rng, tier, root):
 def api_cases(rng, tier):
     cases = []
     n = 0
-    ops = C09.OPS + ["SC 0 %s %s" % (hx("i"), hx("ann")), "SM 0 %s %s %s" % (hx("sl"), hx("a"), hx("b")),
+    # without the CFG_SIMPLE options of C09's schema: what the library stores in the caller's variables is the caller's to
+    # release, so "every block is released by cfg_free" is not what is promised for them
+    ops = [op for op in C09.OPS if op.split()[2] not in C09.SIMPLE_NAMES and b"si = 3" not in bytes.fromhex(op.split()[2])] + ["SC 0 %s %s" % (hx("i"), hx("ann")), "SM 0 %s %s %s" % (hx("sl"), hx("a"), hx("b")),
                      "RN 0 %s 0" % hx("n"), "RT 0 %s %s" % (hx("u"), hx("a")),
                      # lookups that are refused half-way through a path (existing section, then something malformed):
                      # what the resolver allocated for the step must be released on that exit, too
@@ -101,7 +103,7 @@ def api_cases(rng, tier):
         seqs.append(tuple(rng.choice(ops) for _ in range(rng.randint(3, 30))))
     for seq in seqs:
         sp = rng.random() < 0.5
-        lines = schema_lines(C09.SCHEMA) + ["X 0 %d" % (COMMENTS if rng.random() < 0.3 else 0)]
+        lines = schema_lines([o for o in C09.SCHEMA if "s" not in o.cbs or o.ty == "sec"]) + ["X 0 %d" % (COMMENTS if rng.random() < 0.3 else 0)]
         if sp:
             lines += ["SP 0 " + hx("/tmp"), "SP 0 " + hx("/nonexistent")]
         if rng.random() < 0.5:
